@@ -124,7 +124,8 @@ def check_tree(tree, styles, stats, with_model=True):
                 elif not (g2 == gpr):
                     bad(f"{fn}() re-parsed does not compare equal", t2)
             # copies
-            for name, fn in (("copy()", lambda g: g.copy()), ("copy.copy", copy.copy), ("deepcopy", copy.deepcopy)):
+            for name, fn in (("copy()", lambda g: g.copy()), ("copy.copy", copy.copy), ("deepcopy", copy.deepcopy),
+                             ("GPR(rule)", lambda g: GPR(g))):
                 g2 = fn(gpr)
                 if sorted(g2.genes) != genes or table_of(g2, genes) != want or not (g2 == gpr):
                     bad(f"{name} differs", "")
@@ -160,6 +161,9 @@ def check_tree(tree, styles, stats, with_model=True):
                     if n_leaves(tree) >= 5:
                         # the rule object reached the reaction through a conversion instead of the parser
                         variants += [(False, False, "symbolic"), (False, False, "copy")]
+                    if n_leaves(tree) >= 3:
+                        # ... or through the public constructor from another rule, which stays in use elsewhere
+                        variants += [(False, False, "constructor")]
                     for rr, observed, route in variants:
                         ROUTE[0] = route
                         stats["evaluations"] += 1
@@ -174,10 +178,18 @@ def check_tree(tree, styles, stats, with_model=True):
                             warnings.simplefilter("ignore")
                             if route == "text":
                                 rx.gene_reaction_rule = text
+                            source = None   # the rule object that the reaction's rule was derived from
+                            if route == "text":
+                                pass
                             elif route == "symbolic":
-                                rx.gpr = GPR.from_symbolic(GPR.from_string(text).as_symbolic())
+                                source = GPR.from_string(text)
+                                rx.gpr = GPR.from_symbolic(source.as_symbolic())
+                            elif route == "constructor":
+                                source = GPR.from_string(text)
+                                rx.gpr = GPR(source)
                             else:
-                                rx.gpr = copy.deepcopy(GPR.from_string(text).copy())
+                                source = GPR.from_string(text)
+                                rx.gpr = copy.deepcopy(source.copy())
                             r0.gene_reaction_rule = genes[0]
                             m.add_reactions([r0, rx])
                             if observed:
@@ -190,6 +202,12 @@ def check_tree(tree, styles, stats, with_model=True):
                             except Exception as exc:
                                 bad("remove_genes raised " + type(exc).__name__, repr(exc), remove_reactions=rr)
                                 continue
+                        if source is not None:
+                            # the rule it was derived from is a Boolean function of its own: editing the model's rule in
+                            # place leaves it alone
+                            if sorted(source.genes) != genes or table_of(source, genes) != want:
+                                bad("remove_genes changed the rule that the reaction's rule had been derived from",
+                                    f"R={R}: source now {source.to_string()!r} genes {sorted(source.genes)}", remove_reactions=rr)
                         still = ref_gpr.evaluate(tree, set(R))
                         left = sorted(g.id for g in m.genes)
                         if left != sorted(set(genes) - set(R)):
